@@ -306,6 +306,19 @@ def m_str_eq(ctx, args, callee):
     return Not(r) if callee.endswith('::ne') else r
 
 
+@model(r'^(std::result::)?Result::is_ok_and$|^(std::result::)?Result::is_err_and$|^(std::option::)?Option::is_some_and$|^(std::option::)?Option::is_none_or$')
+def m_is_x_and(ctx, args, callee):
+    ev = args[0]
+    d = ev.d if isinstance(ev.d, int) else conc(ev.d)
+    if d is None:
+        d = ctx.concretize(ev.d, [0, 1])
+    k = re.search(r'::(is_ok_and|is_err_and|is_some_and|is_none_or)\b', callee).group(1)
+    hit = {'is_ok_and': 0, 'is_err_and': 1, 'is_some_and': 1, 'is_none_or': 1}[k]
+    if d == hit:
+        return ctx.call_closure(args[1], [ev.p[d][0]])
+    return BoolVal(k == 'is_none_or')
+
+
 @model(r'^<T as (Ord|PartialOrd)>::(cmp|partial_cmp)$', 'generic_T_cmp')
 def m_generic_t_cmp(ctx, args, callee):
     """a generic T: Ord inside a crate function, resolved by the run-time value (the searcher instantiates T = String)"""
